@@ -1,5 +1,6 @@
 import QuantemModel.Core.Proto
 import QuantemModel.Model.Batcher
+import QuantemModel.Model.BatcherExt
 open Lean QuantemModel QuantemModel.Proto QuantemModel.Batcher
 
 namespace DrvC09
@@ -14,6 +15,43 @@ def optNat (j : Json) (k : String) : Except String (Option Nat) :=
   | .ok .null => pure none
   | .ok v => do pure (some (← v.getNat?))
   | .error _ => pure none
+
+def pyErrName : PyErr → String
+  | .valueError => "ValueError" | .zeroDivisionError => "ZeroDivisionError" | .typeError => "TypeError"
+
+def exceptJson {α : Type} (f : α → Json) : Except PyErr α → Json
+  | .ok a => f a
+  | .error e => Json.str (pyErrName e)
+
+def intToJson (i : Int) : Json := Json.num (JsonNumber.fromInt i)
+
+def optInt (j : Json) (k : String) : Except String (Option Int) :=
+  match j.getObjVal? k with
+  | .ok .null => pure none
+  | .ok v => do pure (some (← v.getInt?))
+  | .error _ => pure none
+
+def cfgValOf (j : Json) (k : String) : CfgVal :=
+  match j.getObjVal? k with
+  | .ok .null => .none
+  | .ok (.num n) => if n.exponent == 0 then .int n.mantissa else .float n.toFloat
+  | .ok (.str s) => .str s
+  | .ok _ => .other
+  | .error _ => .none
+
+def faultOf (r : Json) : Except String (Option Fault) :=
+  match r.getObjVal? "fault" with
+  | .ok .null => pure none
+  | .error _ => pure none
+  | .ok f => do
+      let it ← natField f "iter"
+      let kind ← strField f "kind"
+      let pos := (natField f "pos").toOption.getD 0
+      match kind with
+      | "train" => pure (some { iter := it, kind := .train pos })
+      | "val" => pure (some { iter := it, kind := .val pos })
+      | "after" => pure (some { iter := it, kind := .afterRecord })
+      | _ => throw s!"fault kind {kind}"
 
 def subErrName : SubErr → String
   | .runtimeError => "RuntimeError" | .valueError => "ValueError" | .zeroDivisionError => "ZeroDivisionError"
@@ -71,6 +109,94 @@ def step (st : Unit) (j : Json) : Unit × Json :=
             ("val_batches", natssToJson (iterVal b s.val)),
             ("val_len", Json.num (JsonNumber.fromNat (valLen b s.val))),
             ("has_validation", Json.bool (s.val.length > 0))]))
+    | "batcher_py" =>
+        -- SimpleBatcher as Python sees it: batch_size None / any int (0, negative), shuffle flag, abandoned epochs
+        -- are the harness's business (it hands over the order of every epoch that was started)
+        let n ← natField j "n"
+        let ratio ← floatOfJson (← field j "ratio")
+        let mode := modeOfString (← strField j "mode")
+        let perm ← natList (← field j "perm")
+        let b := effBatch n (← optInt j "b")
+        let orders ← (← arrField j "orders").toList.mapM natList
+        let s := split n ratio mode perm
+        let eps : Except PyErr (List (List (List Nat))) := orders.mapM (iterPy b)
+        pure ((), okJson (Json.mkObj [("train", natsToJson s.train), ("val", natsToJson s.val),
+          ("epochs", exceptJson (fun e => Json.arr (e.map natssToJson).toArray) eps),
+          ("len", exceptJson (fun (m : Nat) => Json.num (JsonNumber.fromNat m)) (lenPy b s.train)),
+          ("val_batches", exceptJson natssToJson (iterValPy b s.val)),
+          ("val_len", exceptJson intToJson (valLenPy b s.val)),
+          ("has_validation", Json.bool (s.val.length > 0))]))
+    | "batcher_rng" =>
+        pure ((), okJson (match batcherRngCheck (cfgValOf j "value") with
+          | .ok _ => Json.str "accepted"
+          | .error e => Json.str (pyErrName e)))
+    | "rng_set" =>
+        -- RNGMixin.rng = v, then _reset_rng(): stored seed, generator (seed, position), torch seed
+        let form ← strField j "form"
+        let sf : SeedForm ← match form with
+          | "none" => pure SeedForm.none
+          | "int" => do pure (SeedForm.int (← intField j "seed"))
+          | "np_generator" => do pure (SeedForm.npGen (← natField j "seed") ((natField j "consumed").toOption.getD 0))
+          | "torch_generator" => do pure (SeedForm.torchGen (← natField j "seed"))
+          | "float" => pure SeedForm.float
+          | _ => pure SeedForm.other
+        let show_ (r : RngFull) : Json := Json.mkObj [
+          ("seed", match r.rng.rngSeed with | some k => Json.num (JsonNumber.fromNat k) | none => Json.null),
+          ("gen_seed", Json.num (JsonNumber.fromNat r.rng.gen.seed)), ("gen_pos", Json.num (JsonNumber.fromNat r.rng.gen.pos)),
+          ("torch_seed", match r.torchSeed with | some k => Json.num (JsonNumber.fromNat k) | none => Json.null)]
+        match rngSet 0 sf with
+        | none => pure ((), okJson (Json.mkObj [("rejected", Json.bool true)]))
+        | some r => pure ((), okJson (Json.mkObj [("rejected", Json.bool false), ("set", show_ r), ("reset", show_ (resetRngFull r))]))
+    | "fhistory" =>
+        -- a sequence of reconstruct calls on one object, some of them interrupted by an exception
+        -- (Model/BatcherExt.lean `reconstructF`).  Each run carries the draws the generator makes during it
+        -- (in order, from the harness's twin generator); the model decides how many it consumes.
+        let n ← natField j "n"
+        let seed : Option Nat := match j.getObjVal? "seed" with
+          | .ok .null => none
+          | .ok v => v.getNat?.toOption
+          | .error _ => none
+        let runs ← arrField j "runs"
+        let init : Recon Nat Float := { rng := { rngSeed := seed, gen := { seed := seed.getD 0, pos := 0 } },
+                                         params := 0, initParams := 0, iterLosses := [], valLosses := [] }
+        let mut st := init
+        let mut outs : Array Json := #[]
+        for r in runs do
+          let reset0 ← boolField r "reset"
+          let route := (strField r "route").toOption.getD "arg"
+          if route != "arg" then st := resetRecon st
+          let reset := reset0 && route == "arg"
+          let iters ← natField r "iters"
+          let b ← natField r "b"
+          if b == 0 then throw "b=0"
+          let ratio ← floatOfJson (← field r "ratio")
+          let mode := modeOfString (← strField r "mode")
+          let fault ← faultOf r
+          let draws := (← (← arrField r "draws").toList.mapM natList).toArray
+          let pos0 := if reset then 0 else st.rng.gen.pos
+          let draw : Gen → List Nat → List Nat := fun g l =>
+            if h : g.pos - pos0 < draws.size then draws[g.pos - pos0] else l
+          let tl := (← floatList (← field r "train_losses")).toArray
+          let vt ← (← arrField r "val").toList.mapM (fun e => do
+            let a ← e.getArr?
+            if a.size != 3 then throw "val entry" else
+            pure ((← a[0]!.getNat?), (← a[1]!.getNat?), (← floatOfJson a[2]!)))
+          let start := if reset then 0 else st.params
+          let stepFn : Nat → List Nat → Nat × Float := fun p _ => (p + 1, tl.getD (p - start) 0.0)
+          let valFn : Nat → List Nat → Float := fun p B =>
+            match vt.find? (fun e => e.1 == p - start && e.2.1 == B.headD 0) with
+            | some e => e.2.2
+            | none => 0.0
+          let cfg : RunCfg := { reset := reset, numIters := iters, b := b, n := n, ratio := ratio, mode := mode }
+          let out := reconstructF draw stepFn valFn cfg fault st
+          st := out.1
+          outs := outs.push (Json.mkObj [
+            ("schedule", Json.arr (out.2.1.map natssToJson).toArray),
+            ("iter_losses", Json.arr (st.iterLosses.map floatToJson).toArray),
+            ("val_losses", Json.arr (st.valLosses.map floatToJson).toArray),
+            ("draws_used", Json.num (JsonNumber.fromNat (st.rng.gen.pos - pos0))),
+            ("raised", Json.bool out.2.2)])
+        pure ((), okJson (Json.arr outs))
     | "history" =>
         -- a sequence of reconstruct calls on one object (Model/Batcher.lean `reconstruct`): the generator's
         -- draws come from a table indexed by call position, the per-batch losses of each run from the
